@@ -416,14 +416,14 @@ def check_case(case, explain=False):
     res     = judge(case, outcome, model(case))
 
     if res and any(f['src'] == EQ or f['out'] == EQ for f in case['filters']):
-        # differential attribution: judge the same outcome against the model in which `--x=` counts as not written at all;
-        # what that model explains is the empty-assign root cause, what it still objects to is reported as itself
+        # The property does not say what an empty assign (`--sources=` / `--outputs=`) means, and the code is of two minds
+        # (parse_param_value: "empty string here means no value provided"; parse_filters: "convert --sources= empty assign to
+        # no sources").  Either reading is accepted: the outcome must satisfy the model under "explicitly empty" OR under
+        # "not written at all"; what both models object to is reported.
         res2 = judge(case, outcome, model(case, eq_means_absent=True))
 
-        if set(s for s, _ in res2) != set(s for s, _ in res) or not res2:
-            first = next((w for s, w in res if s == 'C12/sources-appeared'), res[0][1])
-            res   = res2 + [(SIG_EMPTY_ASSIGN, f'{first}  ["--sources=" / "--outputs=" is treated as if the option had not '
-                             f'been written at all; the result is the one for the command line without it]')]
+        if len(res2) < len(res) or not res2:
+            res = res2
 
     if explain:
         shown = outcome if outcome[0] == 'exc' else [{k: v for k, v in c.items() if k != '__cls'} for c in outcome[1]]
